@@ -118,7 +118,7 @@ def write_ebcdic(path: Path, t: Table, widths: list[int]) -> None:
 
 
 # ------------------------------------------------------------------------------------------ observation
-ABSENT = "^"
+ABSENT = "\x00absent"     # what cell_text gives for the library's absent marker: never the text of a real cell (token: ^)
 
 
 def cell_text(v: Any) -> str:
@@ -173,7 +173,7 @@ def obs_token(obs: list[tuple[str, list[str], list[list[str]]]]) -> str:
     parts = []
     for name, header, body in obs:
         h = ".".join(hexcell(c) for c in header) if header else "~"
-        b = "/".join(".".join(ABSENT if c == ABSENT else hexcell(c) for c in r) if r else "~" for r in body) if body else "!"
+        b = "/".join(".".join("^" if c == ABSENT else hexcell(c) for c in r) if r else "~" for r in body) if body else "!"
         parts.append(f"{hexcell(name)}:{h}:{b}")
     return "|".join(parts)
 
